@@ -371,7 +371,8 @@ def match_finding(findings, pid, name, ob):
     """A listed finding suppresses a violation only if the property, the
     obligation name and (when given) every failing path's site match."""
     for f in findings:
-        if f.get("status") != "known" or f.get("property") != pid:
+        # one defect may surface in the checks of several properties (the function is an own or a support function of each): `also_properties`
+        if f.get("status") != "known" or (f.get("property") != pid and pid not in f.get("also_properties", [])):
             continue
         if f.get("obligation") != name:
             continue
